@@ -20,7 +20,7 @@ REPO = os.environ.get("VERIF_REPO", "/repo")
 BUILD = os.path.join(ROOT, ".build")
 SPEC = os.path.join(ROOT, "spec")
 HARN = os.path.join(ROOT, "harness")
-EVID = os.path.join(ROOT, "evidence")
+EVID = os.environ.get("VERIF_EVIDENCE") or os.path.join(ROOT, "evidence")
 TLA_CP = "/opt/veriftools/tla/tla2tools.jar:/opt/veriftools/tla/CommunityModules-deps.jar"
 NCPU = min(16, os.cpu_count() or 4)
 SEED = int(os.environ.get("VERIF_SEED", "1") or 1)
@@ -82,10 +82,11 @@ def build_dir(tier):
     base = os.path.join(BUILD, "obj")
     d = os.path.join(base, _hash, tier + ("-cov" if COVERAGE else ""))
     os.makedirs(d, exist_ok=True)
-    # drop objects of older source states
-    for old in os.listdir(base):
-        if old != _hash:
-            shutil.rmtree(os.path.join(base, old), ignore_errors=True)
+    # drop objects of older source states (not while several trees are being checked side by side)
+    if not os.environ.get("VERIF_KEEP_OBJ"):
+        for old in os.listdir(base):
+            if old != _hash:
+                shutil.rmtree(os.path.join(base, old), ignore_errors=True)
     return d
 
 
